@@ -13,6 +13,15 @@ REALS_AXIOMS = ["ClassicalDedekindReals.sig_forall_dec", "ClassicalDedekindReals
                 "FunctionalExtensionality.functional_extensionality_dep"]
 
 PROPS = {
+    "C03": {
+        "drivers": [{"src": "drv_C03.C", "repo_sources": ["util/Pauli.C"]}],
+        "coq": ["Tie_C03.v", "Properties_C03.v"],
+        "thm_files": ["SpecJones.v"],
+        "assumptions": ["inverse requires det <> 0; scalar division requires a non-zero divisor",
+                        "mixed operator Quaternion<complex<T>,B> * Jones<U> does not instantiate in the library (declared to return Jones<complex<..>>); the combinations that compile are covered",
+                        "biquaternion identity() is initialised from int literals and cannot be instantiated at the symbolic scalar; checked by a plain-build oracle"],
+        "trusted_base": [],
+    },
     "C04": {
         "drivers": [{"src": "drv_C04.C", "repo_sources": ["util/Pauli.C"]}],
         "coq": ["Tie_C04.v", "Properties_C04.v"],
